@@ -109,10 +109,16 @@ func (c *AdminOP)SetState(s StateDB){
 
 func (c *AdminOP) Run(input []byte) ([]byte, error) {
 	//[$len + $arg]
-	dlen := new(big.Int).SetBytes(input[:32]).Uint64()
-	offset := dlen + 32
-	if int(offset) > len(input) {
-		offset = uint64(len(input))
+	if len(input) < 32+20 {
+		return nil, fmt.Errorf("admin input too short")
+	}
+	dlen := new(big.Int).SetBytes(input[:32])
+	offset := uint64(len(input))
+	if dlen.IsUint64() && dlen.Uint64() < offset-32 {
+		offset = dlen.Uint64() + 32
+	}
+	if offset < 32+20 {
+		return nil, fmt.Errorf("admin input too short")
 	}
 	from := input[32:32+20]
 	data := input[32+20:offset]
